@@ -45,6 +45,10 @@ CHECKS = {
    text="Seeded histories of 2-4 connections over two simulated session stores whose every Get/Set/Del is a recorded decision (error, lost write, stale, swapped, flipped, truncated), with loss on the abbreviated flights, lost server stores and provoked fatal alerts. The oracle compares what the two stores actually handed out with what the endpoints report and what the wire shows (abbreviated or full handshake, hello randoms, CIDs), and checks store contents after fatal alerts.",
    note="Secrets differing only in trailing zero bytes are treated as equal (HMAC pads keys with zeros, so TLS cannot tell them apart). A store that returns a session it was told to delete is not held against the endpoint.",
    technique="deterministic simulation: seeded connection histories over a fault-injecting session store"),
+ "C08": dict(level="exploration", design="§5 C08",
+   text="Seeded injection of hostile datagrams (grammar-aware mutants of captured traffic, noise, reassembly floods) at drawn instants of 13 handshake variants and 13 data configurations, towards either endpoint and from spoofed or unrelated addresses. Panics in library goroutines are caught by an injected recover and reported with their stack; runs that never become quiescent again are detected by step/wall budgets and a parent-process watchdog and confirmed in a fresh process; buffer sizes are read through an accessor at quiescent points; with only unparseable or unauthenticatable input the genuine handshake must complete and data must flow.",
+   note="Correctly protected but malformed content from an authenticated peer is not generated yet (needs the independent record layer). Handshake-phase injection of parseable cleartext handshake records may legitimately derail a handshake and is held to the safety clauses only.",
+   technique="deterministic simulation: seeded hostile-datagram injection with crash, livelock and buffer-bound oracles"),
 }
 
 NOT_YET = {}
